@@ -104,8 +104,16 @@ def run(tier, seed, t0):
         mc = [f.result() for f in mcf] + [info]
     finally:
         ex.shutdown(wait=True)
-    v = vlib.Verdict(PROP)
+    v = vlib.Verdict(PROP, own_kinds=("backlog",))
     v.absorb(bad)
+    # large backlogs (> 1 MiB queued behind a stalled transport, drained by big short writes) go through the
+    # session driver and the connection-level trace spec: every frame must come out whole and in order
+    import scenarios
+    vlib.build_harness()
+    bscn = scenarios.generate("backlog", 10 if tier == "quick" else 80, seed)
+    bfiles, bsumm = vlib.run_sessions(PROP + "-backlog", bscn, tier, hang_ms=hang)
+    bconsumed, bbad = vlib.validate_traces("ConnTrace", "ConnTrace.cfg", bfiles, timeout=1800, xmx="4g")
+    v.absorb(bbad)
     vlib.write_evidence(
         PROP, tier, seed, t0, mc, traces_validated=summ["evaluations"],
         evaluations=summ["evaluations"], distinct=min(st["distinct"], st["nontrivial"]),
@@ -126,7 +134,8 @@ def run(tier, seed, t0):
              % (", 4087..9000 bytes = up to 3 body frames at frame_max 4096", len(cases),
                 "; 8000 random cycles" if thorough else ""),
         samples=summ["samples"], verdict=v, exhaustive=False,
-        extra={"trace_records_validated": consumed, "sessions": summ["evaluations"],
+        extra={"trace_records_validated": consumed + bconsumed, "sessions": summ["evaluations"],
+               "backlog_sessions": len(bscn), "backlog_sessions_hung": bsumm["hung"],
                "sessions_hung": summ["hung"], "sessions_not_clean": summ["unclean"],
                "bytes_on_wire": summ["bytes_on_wire"], "write_calls": st["write_calls"],
                "would_blocks": st["would_blocks"], "short_writes": st["short_writes"],
